@@ -1,5 +1,6 @@
-use vkit::Check;
+mod c40;
+use vkit::{Check, Level};
 fn main() {
-    let checks: &[Check] = &[];
+    let checks: &[Check] = &[Check { id: "C40", level: Level::Exploration, run: c40::run }];
     vkit::main(checks);
 }
